@@ -217,6 +217,9 @@ def l2_world_same_chr(assign):
             b = [[base + 651, base + 800], [base + 1201, base + 1400], [base + 1801, base + 1950]]
         elif lt == "incons":
             b = W.exons(base, [0, 2, 3])
+        elif lt == "ir":
+            e = W.exons(base, [0, 1, 2, 3])
+            b = [e[0], [e[1][0], e[2][1]], e[3]]           # intron between slots 1 and 2 retained: inconsistent with every isoform
         else:
             b = W.exons(9000, [0, 1]) if base == 5500 else W.exons(3800, [0, 1])
         blocks.append(b)
@@ -228,7 +231,33 @@ def l2_world_same_chr(assign):
         w["reads"].append(W.read_of("bgB_%d" % k, "chrB", W.exons(1000, [0, 1, 2])))
     for (lt, flag), b in zip(assign, blocks):
         w["reads"].append(W.read_of("mm", "chrA", b, polya=False, secondary=(flag == "s")))
+    if len(assign) > 2:
+        # a third alignment of the read on the other chromosome (gene GchrB: one isoform over slots 0,1,2)
+        lt, flag = assign[2]
+        e = W.exons(1000, [0, 1, 2])
+        b = {"fsm": e, "ir": [[e[0][0], e[1][1]], e[2]], "intergenic": W.exons(3800, [0, 1])}[lt]
+        W.add_sites_for_blocks(w, "chrB", W.exons(1000, [0, 2]), "+")
+        W.add_sites_for_blocks(w, "chrB", W.exons(3800, [0, 1]), "+")
+        W.dedup_sites(w)
+        w["reads"].append(W.read_of("mm", "chrB", b, polya=False, secondary=(flag == "s")))
     return w, ["chrA", "chrB"]
+
+
+def expected_loci(assign):
+    """retained loci (indices into assign) by the statement: a uniquely and consistently assigned PRIMARY alignment wins alone; otherwise
+       consistent beats inconsistent beats uninformative and all alignments of the best class are kept; None = not decided by the statement
+       (several uninformative alignments)"""
+    cls = {"fsm": 0, "ism_amb": 0, "ir": 1, "intergenic": 2}
+    prim_unique = [i for i, (lt, f) in enumerate(assign) if lt == "fsm" and f == "p"]
+    if prim_unique:
+        return set(prim_unique[:1])
+    best = min(cls[lt] for lt, f in assign)
+    if best == 2:
+        return None
+    keep = set(i for i, (lt, f) in enumerate(assign) if cls[lt] == best)
+    if best == 1 and len(keep) > 1:
+        return None           # several inconsistent alignments are ranked by their penalties (resolver level: L1), not decided here
+    return keep
 
 
 def l2_world(assign, lengths):
@@ -272,7 +301,7 @@ def l2_case(args):
     results = {}
     errs = []
     nruns = 0
-    same_chr = (tag.startswith("same_"))
+    same_chr = (tag.startswith("same_") or tag.startswith("same3_"))
     for lengths in (itertools.permutations(range(n)) if not same_chr else [(0, 1)]):
         for mode in ("default", "high_memory"):
             w, names = l2_world(assign, lengths) if not same_chr else l2_world_same_chr(assign)
@@ -290,6 +319,14 @@ def l2_case(args):
                 continue
             rows = [r for r in run.parse_assignments(run.find(out, "OUT", ".read_assignments.tsv")) if r["read_id"] == "mm"]
             kept = sorted(set((r["chr"], r["assignment_type"]) for r in rows))
+            if tag.startswith("same3_"):
+                locus = lambda r: 2 if r["chr"] == "chrB" else (0 if r["exon_list"][0][0] < 5000 and not (assign[0][0] == "intergenic" and r["exon_list"][0][0] > 3700) else
+                                                                 (0 if assign[0][0] == "intergenic" and 3700 < r["exon_list"][0][0] < 5000 else 1))
+                got = set(locus(r) for r in rows)
+                exp = expected_loci(assign)
+                if exp is not None and got != exp:
+                    errs.append(("retained-set", "%s: alignments kept at loci %s (0/1 = first/second locus of chrA, 2 = chrB), the priority rules keep %s" %
+                                 (mode, sorted(got), sorted(exp))))
             bed = sorted(set(r["chr"] for r in run.parse_bed(run.find(out, "OUT", ".corrected_reads.bed")) if r["name"] == "mm"))
             if sorted(set(k[0] for k in kept)) != bed:
                 errs.append(("bed-tsv-disagree", "%s %s: tsv loci %s, bed loci %s" % (lengths, mode, kept, bed)))
@@ -374,6 +411,19 @@ def run(ctx):
             if quick and not (a[1] == "p" and b[1] == "s"):
                 continue
             jobs.append(((a, b), ctx.scratch, "same_%s%s_%s%s" % (a[0], a[1], b[0], b[1])))
+    # three alignments, two of them on one chromosome (the losers / tied ones share a chromosome)
+    third = [("fsm", "p"), ("fsm", "s"), ("ir", "p"), ("intergenic", "p")]
+    pairs3 = list(itertools.product(("fsm", "ism_amb", "ir", "intergenic"), "ps"))
+    for a in pairs3:
+        for b in pairs3:
+            for c in third:
+                flags = [a[1], b[1], c[1]]
+                if flags.count("p") != 1:
+                    continue                      # exactly one primary alignment
+                if quick and not (c[1] == "p" and (a[0], b[0]) in (("fsm", "fsm"), ("fsm", "ir"), ("ir", "fsm"), ("ism_amb", "fsm"), ("ir", "ir"),
+                                                                   ("intergenic", "fsm"), ("fsm", "intergenic"))):
+                    continue
+                jobs.append(((a, b, c), ctx.scratch, "same3_%s%s_%s%s_%s%s" % (a + b + c)))
     if not quick:
         for a, b, c in itertools.combinations_with_replacement([("fsm", "p"), ("fsm", "s"), ("ism_amb", "s"), ("incons", "s"), ("intergenic", "s")], 3):
             jobs.append(((a, b, c), ctx.scratch, "%s%s_%s%s_%s%s" % (a + b + c)))
